@@ -168,10 +168,16 @@ pub fn run(args: &Args, rep: &mut Report) {
         g.invalid_names = false;
         g.max_file_clusters = 4;
         g.set_times = false;
+        // in-place rewrites of existing bytes matter here: bias towards seeks to the start
+        g.w_file = 60;
         let mut scfg = SessCfg::all(unicode_build());
         scfg.props = ["C01", "C02", "C14"].into_iter().collect();
         scfg.lib_walk = false;
         scfg.journal = true;
+        scfg.frozen_clock = rng.chance(1, 2);
+        if scfg.frozen_clock {
+            scfg.props.remove("C18");
+        }
         let class = fnv_of(&[&vc.class()]);
         let mut src = RandomSource::new(seed, 0x14e, id, g);
         let o = run_session(&scfg, &img, vb, class, &mut src);
